@@ -5,6 +5,7 @@ import (
 	"io"
 	"os"
 	"path"
+	"path/filepath"
 
 	"github.com/fsnotify/fsnotify"
 )
@@ -120,6 +121,19 @@ func (s *NotifyFollowReader) startWatcher() (*fsnotify.Watcher, error) {
 		return nil, err
 	}
 
+	// When the path is a symbolic link, writes are reported for the file it
+	// points to (under that file's name, in that file's directory)
+	target := s.filename
+	if resolved, err := filepath.EvalSymlinks(s.filename); err == nil && path.Base(resolved) != path.Base(s.filename) {
+		target = resolved
+		if path.Dir(target) != path.Dir(s.filename) {
+			if err := watcher.Add(path.Dir(target)); err != nil {
+				watcher.Close()
+				return nil, err
+			}
+		}
+	}
+
 	go func() {
 		defer watcher.Close()
 		for {
@@ -127,7 +141,7 @@ func (s *NotifyFollowReader) startWatcher() (*fsnotify.Watcher, error) {
 			switch {
 			case !ok:
 				return
-			case path.Base(s.filename) != path.Base(event.Name):
+			case !sameDirEntry(event.Name, s.filename) && !sameDirEntry(event.Name, target):
 				// nop
 			case event.Op&fsnotify.Write != 0:
 				writeSignalNonBlock(s.eventWrite)
@@ -140,6 +154,11 @@ func (s *NotifyFollowReader) startWatcher() (*fsnotify.Watcher, error) {
 	}()
 
 	return watcher, nil
+}
+
+// sameDirEntry: the event names the given file of a watched directory
+func sameDirEntry(eventName, filename string) bool {
+	return path.Base(eventName) == path.Base(filename) && path.Clean(path.Dir(eventName)) == path.Clean(path.Dir(filename))
 }
 
 func (s *NotifyFollowReader) closeFile() {
